@@ -667,6 +667,35 @@ def intrin_cases(r, reps=6):
     return b
 
 
+WASM_INTRINS = [
+    ("wadd", [0], "vv"), ("wsub", [0], "vv"), ("wmul", [0], "vv"), ("wand", [0], "vv"), ("wor", [0], "vv"), ("wxor", [0], "vv"),
+    ("wandnot", [0], "vv"), ("wshr64", [0, 1, 32, 62, 63, 64, 65, 127, 4294967295], "v"), ("wshl64", [0, 1, 63, 64, 65, 4294967295], "v"),
+    ("wshr32", [0, 1, 5, 31, 32, 33, 4294967295], "v"), ("wshl32", [0, 1, 5, 31, 32, 33, 4294967295], "v"),
+    ("wrepl", [0, 1, 2, 3], "vs"), ("wzip", [0], "vv"), ("wrot", [0], "vv"), ("wsh12", [0], "vv"), ("wext", [0, 1], "v"),
+    ("wmk64", [0], "ss"), ("wmk32", [0], "ssss"),
+]
+
+
+def wasm_intrin_cases(r, reps=4, swizzle=False):
+    """single-intrinsic conformance of HH/Intrin/Wasm.lean on the wasm runners, incl. shift counts >= the lane width
+    (taken modulo the width by the instruction) and, on the real engine, swizzle indices >= 16"""
+    b = B("wintrin", ["intrin", "wasm"])
+    tab = WASM_INTRINS + ([("wswz", [0], "vm")] if swizzle else [])
+    for name, imms, kinds in tab:
+        for imm in imms:
+            for rep in range(reps):
+                ops = []
+                for k in kinds:
+                    if k == "v":
+                        ops.append(v128(r))
+                    elif k == "m":
+                        ops.append(int.from_bytes(bytes(r.choice((r.randrange(16), 0x80 | r.randrange(128), r.randrange(16, 128))) for _ in range(16)), "little"))
+                    else:
+                        ops.append(r.choice((0, 1, 0x7FFFFFFF, 0x80000000, 0xFFFFFFFF, r.getrandbits(32), r.getrandbits(64))))
+                b.op(f"intrin {name} {imm} " + " ".join(f"{o:032x}" for o in ops))
+    return b
+
+
 def adapters(r, sels, force=False, std=True):
     """Hasher::finish repeatable/interleavable, io::Write::write consumes everything, flush is a no-op"""
     sel = r.choice(sels)
